@@ -133,13 +133,26 @@ def run_engine_cases(cases):
                        "policies": [{"id": "outer", "algorithm": "first-applicable", "policies": [{"id": "p", **pol}]}]}
             g = Guard(pol, strict_types=c["strict"])
             r = c["resource"]
-            try:
-                d = await g.evaluate_async(Subject(id="u"), Action("read"),
-                                           Resource(type=r.get("type"), id=r.get("id"), attrs=r.get("attrs") or {}),
-                                           Context({}))
-                out.append(d.allowed)
-            except Exception as e:  # noqa: BLE001
-                out.append(["Raise", type(e).__name__])
+
+            async def ev(guard, rr):
+                try:
+                    d = await guard.evaluate_async(Subject(id="u"), Action("read"),
+                                                   Resource(type=rr.get("type"), id=rr.get("id"), attrs=rr.get("attrs") or {}),
+                                                   Context({}))
+                    return d.allowed
+                except Exception as e:  # noqa: BLE001
+                    return ["Raise", type(e).__name__]
+
+            cold = await ev(g, r)
+            # the same request on a Guard that has already answered sibling requests (same type and id with
+            # other attributes, other id, other type): the answer must not depend on that past
+            g2 = Guard(pol, strict_types=c["strict"])
+            sibs = [{**r, "attrs": {"k": "zz-other"}}, {**r, "attrs": {}}, {**r, "attrs": {"k": 1, "x": 2}},
+                    {**r, "id": "zz-other-id"}, {**r, "type": "img"}]
+            for sres in sibs:
+                await ev(g2, sres)
+            warm = await ev(g2, r)
+            out.append(cold if warm == cold else ["History", cold, warm])
 
     asyncio.run(go())
     return out
@@ -184,7 +197,12 @@ def check_cases(chk, cases, replay=False):
                 continue
             chk.mark(("engine", repr(c)), True)
             chk.count("engine_result:" + str(i))
-            if i != m:
+            if isinstance(i, list) and i and i[0] == "History":
+                chk.violation(f"engine path {c['shape']} strict={c['strict']}: a fresh Guard answers allowed={i[1]} but a Guard "
+                              f"that has answered sibling requests (other attributes / id / type) answers {i[2]} for the "
+                              f"same request; the target {'matches' if m is True else 'does not match'} (c05_all_paths_agree)",
+                              c, impl=i, model=m)
+            elif i != m:
                 chk.violation(f"engine path {c['shape']} strict={c['strict']}: allowed={i} but the target "
                               f"{'matches' if m is True else 'does not match'} in that mode (c05_all_paths_agree)",
                               c, impl=i, model=m)
